@@ -41,3 +41,10 @@ CLAIMED["C05"] = ("edge-cut must-pass-through over the melt outcome decision tab
   "hazard in every backend, the poll's scope and the resolve-before-answer order. Any extra way into a release or settle is a violation. "
   "Right level: the reaction table is a finite code-shape fact for all answer scripts; backend truthfulness and timing are not claimed.",
   TRUST, "DESIGN.md §3 C05")
+CLAIMED["C06"] = ("panic-site obligations over the handler-reachable call graph discharged by edge-cut facts + validation-before-mutation cut + handler response discipline",
+  "Decides that every index/slice/assert/division/Repeat/make/nil-dereference site reachable from a route handler cannot fire, by dominating "
+  "length/nil/range facts, producer postconditions, caller-established facts or a small printed trust table; that in swap/melt/mint no "
+  "request rejection is reachable after a persistent write except behind the PENDING marker whose every failure path reverts; that the "
+  "state UPDATEs are unconditional; and that handlers call the operation only after a clean decode and write exactly one response. Right "
+  "level: 'for every request content' is a for-all over inputs that these path facts settle; dependency internals and scheduling are not claimed.",
+  TRUST, "DESIGN.md §3 C06")
